@@ -64,7 +64,7 @@ func (c *C07Case) buildSP() *saml2.SAMLServiceProvider {
 
 func genC07(t *rapid.T) C07Case {
 	c := C07Case{SP: h.BaseSP()}
-	c.Window = rapid.SampledFrom(h.Windows).Draw(t, "window")
+	c.Window = rapid.SampledFrom(append([]string{"long"}, h.Windows...)).Draw(t, "window")
 	c.ClockPos = rapid.SampledFrom(append([]string{"inside", "inside", "inside"}, clockPositions...)).Draw(t, "clockPos")
 	c.SP.ValidateEncCert = rapid.Bool().Draw(t, "validateEncCert")
 	c.SPCert = rapid.SampledFrom([]string{"valid", "valid", "valid", "valid", "empty", "garbage", "nocert-tls"}).Draw(t, "spCert")
@@ -87,6 +87,9 @@ func (c *C07Case) build() error {
 	idp := h.CertRef{Key: "T1", Window: c.Window}
 	if c.IdPWide {
 		idp.Window = "wide"
+	}
+	if c.Window == "long" {
+		idp.Window = "longer" // valid on both sides of the three-century SP certificate window
 	}
 	c.SP.Store = []h.CertRef{idp, {Key: "U1", Window: "wide"}}
 	trusted := h.DefaultSign("T1")
@@ -271,6 +274,10 @@ func judgeC07(c C07Case, newSP func() *saml2.SAMLServiceProvider) h.Outcome {
 		nb, na := h.WindowBounds("wide")
 		idpOK = !c.SP.Now().Before(nb) && !c.SP.Now().After(na)
 	}
+	if c.Window == "long" {
+		nb, na := h.WindowBounds("longer")
+		idpOK = !c.SP.Now().Before(nb) && !c.SP.Now().After(na)
+	}
 	o.Classes = append(o.Classes, fmt.Sprintf("idpOK:%v", idpOK), fmt.Sprintf("spCertInside:%v", inside))
 	resp, err := newSP().ValidateEncodedResponse(c.Encoded)
 	info, err2 := newSP().RetrieveAssertionInfo(c.Encoded)
@@ -391,7 +398,7 @@ func TestC07_PAttack(t *testing.T) {
 func TestC07_Grid(t *testing.T) {
 	var cases []C07Case
 	i := 0
-	for _, w := range h.Windows {
+	for _, w := range append([]string{"long"}, h.Windows...) {
 		for _, pos := range clockPositions {
 			for _, validate := range []bool{false, true} {
 				for _, spc := range []string{"valid", "empty", "garbage", "nocert-tls"} {
